@@ -15,7 +15,7 @@ PROOF_TARGETS = ["C07/Lemmas.vo", "C07/LemmasOrder.vo"]
 PROPS = ["C07/Props.v"]
 ALLOWED_AXIOMS = []
 IMPL_TIMEOUT = 20.0
-COQ_SHARD = 60
+COQ_SHARD = 20
 SEARCH_TEXT = "BUG-7"
 
 RULE = ("(order) dependency graphs of 1-7 repositories over ids 0-9, random edges incl. self loops, cycles and "
@@ -33,7 +33,14 @@ RULE = ("(order) dependency graphs of 1-7 repositories over ids 0-9, random edge
         "exotic: leading zeros, a project specific tag format handled by an overridden parse_buildtag, a tag text that "
         "names no release series (incl. near misses release_1, release_1_1_x, pre_release_1_2) whose major.minor come "
         "from a version file saved in the commit, or '?'.'?'.n when that file is missing / unreadable; saved version "
-        "files that nothing should read.  Non-trivial = a cycle or >= 2 repositories with a dependency (order); at "
+        "files that nothing should read.  (collection) 3-4 generated repositories in one ReposCollection: one parent "
+        "pinning 2-3 components (most), two parents pinning the same component(s), three levels (a component that pins "
+        "a sub-component itself; also with the top pinning the sub-component directly); RBuild / RCommit iids start at "
+        "0 in every repository, so the iids of different components overlap; the pins of the components of one parent "
+        "move independently (one stays while another moves), exactly one per commit, or in lock-step; all pins in one "
+        "DEPENDS file (entries in either order) or a file per component; sometimes a declared component that is not "
+        "supplied; repository names (hence the analysis order) and the supply order shuffled; the report is made twice "
+        "on the same collection.  Non-trivial = a cycle or >= 2 repositories with a dependency (order); at "
         "least one included_at registration (bump).")
 TRUSTED_BASE = [
     "harness-side mock git objects (commit / tree / blob / refs) stand in for GitPython; the harness renders the tags "
@@ -42,9 +49,12 @@ TRUSTED_BASE = [
     "expressions are re-read from the source, fail closed); pins come from a JSON DEPENDS file, saved versions from a "
     "VERSION file read by harness-side _read_saved_build_num_from_file / parse_buildtag overrides (the documented "
     "extension points)",
-    "the component's finished RGraph (RBuild iids renumbered order-preservingly, parent_rbuilds, bn_map, RBranch "
-    "membership) is read from the implementation's own run and handed to the model as input: the construction of a "
-    "single repository's RGraph is property C06's subject; the oracle does not use it (it works from the raw histories); "
+    "the finished RGraph of every component (RBuild iids renumbered order-preservingly per repository, parent_rbuilds, "
+    "bn_map, RBranch membership) is read from the implementation's own run and handed to the model as input: the "
+    "construction of a single repository's RGraph is property C06's subject (for a component that pins sub-components "
+    "itself its RGraph is this model's OUTPUT one level down, which is compared; it still enters the next level as read "
+    "from the implementation); RBuild objects in a bump are identified by object identity, an object of another "
+    "repository shows up as a number >= 10^6; the oracle does not use it (it works from the raw histories); "
     "the component's tag -> build number step IS compared with the model (get_builds_numbers of every commit)",
     "gen/C07_Consts.v: the clauses of ComponentBump.get_rbuilds_in_bump (the statements that build excluded_iids, the pruning "
     "test `cur_rbuild.iid in excluded_iids`, the DFS statements) / is_trivial / the is_rbuild disjunction / the "
@@ -53,15 +63,19 @@ TRUSTED_BASE = [
 ]
 ASSUMPTIONS = [
     "commit times lie within the 30-day / 1-day cut-off windows (all mock commits are seconds apart)",
-    "one parent repository pinning one component in the bump model (dependency graphs of any shape in the order model)",
+    "the bump model describes one repository and the components it pins (any number); a collection is modelled as one "
+    "such run per repository that pins components (dependency graphs of any shape in the order model); a component is "
+    "its position in the parent's component list - the order of the components in the version file / the dicts is not "
+    "modelled (nothing observable depends on it; the generators vary it)",
     "build numbers have patch == build (tag and pin formats used by the generators); builds are detected by tags "
     "(RepoBuildsByTagDetector, the default), not by RepoBuildsBySavedBuildNumDetector",
     "a version component is a non-negative integer or the string '?' (encoded -1 / [qm]); no real build is numbered "
     "8888.8888.8888 or 9999.9999.9999 (the code's fake builds)",
 ]
 MODELLED = ("ak/ghist.py ReposCollection.__init__ ordering DFS and make_reports_data order; ComponentBump; RGraph.__init__, "
-            "_read_branch, _mk_rcommits, _find_new_rcommits_in_build, _mk_bumps_info, pending bumps of the 'not merged' "
-            "pseudo build and included_at registration for the parent repository; RepoBuildsByTagDetector."
+            "_read_branch, _mk_rcommits, _find_new_rcommits_in_build, _mk_bumps_info (the loop over the components, each "
+            "iteration with its own from_builnums / from_rbuilds), pending bumps of the 'not merged' pseudo build and "
+            "included_at registration (per component) for a repository that pins several components; RepoBuildsByTagDetector."
             "finalize_build_tag_info / get_builds_numbers (three routes from a tag to major.minor, incl. the '?' fallback) "
             "and BuildNumData.cmp (integers below '?'); NOT modelled: BranchName sorting, the regular expressions of the "
             "tag formats, the obsolete-branch / component cut-off times, report formatting, the component's own RGraph")
@@ -165,6 +179,48 @@ def gen_consts(repo):
     if len(ntb) != 1 or _src(ntb[0].value).replace(" ", "").replace("\n", "") != \
             "any((notbump.is_trivial()forbumpincomponents_bumps.values()))":
         raise ExtractError("_mk_rcommits: non_trivial_bumps_present is not any(not bump.is_trivial() ...)")
+    # --- _mk_bumps_info: one loop iteration per component; the state of an iteration (from_builnums, from_rbuilds) is
+    #     created inside the loop body, reads the parent builds' bumps of that component only, and ends in the
+    #     component's ComponentBump.  (RBuild iids are unique within one repository only: a from_rbuilds dict that
+    #     survives an iteration mixes the iids of different components.)
+    f = _find_func(rg, "_mk_bumps_info")
+    loops = [n for n in f.body if isinstance(n, ast.For) and flat(n.iter) == "cur_components_buildnums.items()"
+             and flat(n.target) == "(repo_id,cur_component_bn)"]
+    if len(loops) != 1:
+        raise ExtractError("_mk_bumps_info: the loop over cur_components_buildnums.items() was not found")
+    loop = loops[0]
+    state = ("from_builnums", "from_rbuilds")
+    inner = [i for i, n in enumerate(loop.body) if isinstance(n, ast.For) and flat(n.iter) == "parent_rbuilds.values()"]
+    if len(inner) != 1:
+        raise ExtractError("_mk_bumps_info: the loop over the parent builds was not found inside the loop over the components")
+    stores = {v: [n for n in ast.walk(f) if isinstance(n, ast.Name) and n.id == v and isinstance(n.ctx, ast.Store)] for v in state}
+    inits = {flat(n): i for i, n in enumerate(loop.body) if isinstance(n, ast.Assign)}
+    gets = [flat(n.value) for n in ast.walk(loop.body[inner[0]]) if isinstance(n, ast.Assign) and "bumps" in flat(n.value)]
+    made = [flat(n) for n in loop.body if isinstance(n, ast.Assign) and flat(n).startswith("components_bumps[")]
+    if gets != ["parent_rbuild.bumps.get(repo_id)"] or made != \
+            ["components_bumps[repo_id]=ComponentBump(from_builnums,cur_component_bn,from_rbuilds,cur_component_rbuild)"]:
+        raise ExtractError(f"_mk_bumps_info: unrecognised per-component statements {gets} {made}")
+    if all(len(stores[v]) == 1 for v in state) and inits.get("from_builnums=[]", 99) < inner[0] \
+            and inits.get("from_rbuilds={}", 99) < inner[0]:
+        bump_state = "StatePerComponent"
+    elif not any(isinstance(n, ast.Assign) and any(v in flat(t) for t in n.targets for v in state) for n in loop.body) \
+            and all(stores[v] for v in state):
+        # created once, outside the loop over the components: shared by (and accumulating over) all components of a
+        # commit.  Not what the model describes: the obligation src_bump_state_ok fails, the correspondence and the
+        # oracle look for the failing history.
+        bump_state = "StateShared"
+    else:
+        raise ExtractError("_mk_bumps_info: from_builnums / from_rbuilds are neither created per component nor once per commit")
+    # the registration loop and the pending bumps read a build's bump of the component they are dealing with
+    f = _find_func(rg, "__init__")
+    regs = [flat(n.value) for n in ast.walk(f) if isinstance(n, ast.Assign) and ".bumps" in flat(n.value)]
+    if regs != ["my_rbuild.bumps.get(cmpnt_name)"]:
+        raise ExtractError(f"RGraph.__init__: unrecognised access to the bumps of a build in the registration loop: {regs}")
+    f = _find_func(rg, "_read_branch")
+    pend = [flat(n) for n in ast.walk(f) if isinstance(n, ast.Assign) and "bumps" in flat(n)]
+    if len(pend) != 4 or set(pend) != {"cmpnt_prev_bump=latest_rbuild.bumps[repo_id]", "pending_cmpnts_bumps[repo_id]=bump", "pending_cmpnts_bumps={}",
+                        "rbuild=RBuild(None,parent_rbuilds,not_merged_rcommits,pending_cmpnts_bumps,build_type=RBuild.FAKE_NOT_MERGED)"}:
+        raise ExtractError(f"_read_branch: unrecognised statements about the pending bumps: {pend}")
     # --- ReposCollection.__init__: cycle test and exception class
     rcol = _find_class(tree, "ReposCollection")
     f = _find_func(rcol, "__init__")
@@ -214,7 +270,9 @@ def gen_consts(repo):
             f"Definition src_is_rbuild : list rb_clause := [{'; '.join(known[c] for c in clauses)}].\n"
             f"Definition src_cycle_err : err := {emap[exc]}.\n"
             "Inductive tag_route := RouteKnown | RouteGuessIsNotNone | RouteSaved.\n"
-            "Definition src_tag_routes : list tag_route := [RouteKnown; RouteGuessIsNotNone; RouteSaved].\n")
+            "Definition src_tag_routes : list tag_route := [RouteKnown; RouteGuessIsNotNone; RouteSaved].\n"
+            "Inductive bump_state := StatePerComponent | StateShared.\n"
+            f"Definition src_bump_state : bump_state := {bump_state}.\n")
     return {"C07_Consts": text}
 
 
@@ -314,17 +372,54 @@ def has_qm(v):
     return QM in v
 
 
-class MockRepo:
-    """spec = {"commits": [{"id", "p": [ids], "m": 0/1, "tags": [tag], "ver": [M,m]|"bad"|absent, "pin": [M,m,n]|None}],
-               "branches": [[name, head]]}"""
+def dep_file(spec, comp):
+    """the file of a repository's commits that holds the pinned version of component `comp`"""
+    return "DEPENDS" if spec.get("files", "one") == "one" else "DEPENDS_" + comp
 
-    def __init__(self, name, spec, comp_name=None):
+
+def declared(spec):
+    """keys of _COMPONENTS_VERSIONS_LOCATIONS in declaration order: the components of the collection the repository
+    pins, and `ghosts` - declared components that are not supplied to the collection"""
+    return list(spec.get("comps", [])) + list(spec.get("ghosts", []))
+
+
+def as_multi(case):
+    """a bump case is a collection of repositories {"k": "bump", "repos": [spec]} with
+    spec = {"name", "comps": [names], "ghosts": [names], "files": "one" (one DEPENDS file for all pins) | "sep" (a file
+    per component), "frev": 0/1 (order of the entries inside the shared file), "commits": [{.., "pins": {comp: [M,m,n]}}],
+    "branches"}; the older two-repository form {"comp": spec, "par": spec with "pin"} is read as such a collection"""
+    if "repos" in case:
+        return case
+    par = dict(case["par"], name="par", comps=["comp"], files="one")
+    par["commits"] = [dict({k: v for k, v in c.items() if k != "pin"},
+                           pins={} if c.get("pin") is None else {"comp": c["pin"]}) for c in case["par"]["commits"]]
+    comp = dict(case["comp"], name="comp", comps=[])
+    return {"k": "bump", "repos": [par, comp]}
+
+
+def pin_of(c, comp):
+    p = (c.get("pins") or {}).get(comp)
+    return None if p is None else list(p)
+
+
+class MockRepo:
+    """spec = {"commits": [{"id", "p": [ids], "m": 0/1, "tags": [tag], "ver": [M,m]|"bad"|absent, "pins": {comp: [M,m,n]}}],
+               "branches": [[name, head]], "comps", "ghosts", "files", "frev"}"""
+
+    def __init__(self, name, spec):
         self.git_dir = "/mock/" + name
         self.commits = {}
+        order = declared(spec)
+        if spec.get("frev"):
+            order = order[::-1]
         for c in spec["commits"]:
             files = {}
-            if c.get("pin") is not None and comp_name is not None:
-                files["DEPENDS"] = json.dumps({comp_name: vstr(c["pin"])})
+            byfile = {}
+            for comp in order:
+                if pin_of(c, comp) is not None:
+                    byfile.setdefault(dep_file(spec, comp), {})[comp] = vstr(pin_of(c, comp))
+            for fname, d in byfile.items():
+                files[fname] = json.dumps(d)
             if c.get("ver") is not None:
                 files[SAVED_FILE] = "no version here\n" if c["ver"] == "bad" else f"{c['ver'][0]}.{c['ver'][1]}.77\n"
             msg = f"fix {SEARCH_TEXT} here" if c.get("m") else "unrelated"
@@ -587,6 +682,126 @@ def gen_bump(rng, mode=None, linear_comp=None):
     return {"k": "bump", "comp": comp, "par": par}
 
 
+def gen_owner(rng, name, comps, mode, small=False):
+    """a repository that pins the repositories `comps` = [(name, spec)] (each with at least one numbered build).
+    mode 'domain': every commit pins an existing build of every component and no pin decreases along a path;
+    'wild': anything.  The pins of the components move independently of one another: a pin stays while another
+    moves (style 'indep'), exactly one pin moves per commit ('alternate'), all move together ('lockstep')."""
+    vers_ = {}
+    for cn, cs in comps:
+        anc = _ancestors({c["id"]: c["p"] for c in cs["commits"]})
+        live = set().union(*[anc[h] for _, h in cs["branches"]])
+        vers_[cn] = sorted(v for c in cs["commits"] if c["id"] in live for v in versions(c) if not has_qm(v)) \
+            or sorted(v for c in cs["commits"] for v in versions(c) if not has_qm(v))
+    nb = rng.choice([1, 1, 2, 2, 3])
+    linear = rng.random() < 0.6
+    commits = []
+    branch_of = {}
+    branches = []
+    cid = 1
+    first = vers_[comps[0][0]]
+    PM = rng.choice([5, 5, 5, 5, 0, 0, 10, first[0][0]])
+    pm0 = rng.choice([1, 1, 1, 0, 0, 9, 99])
+    poff = rng.choice(BUILD_OFFSETS[:-1])
+    names = [f"release/{PM}.{pm0}", f"release/{PM}.{pm0 + 1}", "master"]
+    if nb < 3 and rng.random() < 0.5:
+        names = names[:nb - 1] + ["master"] if nb > 1 else rng.choice([[names[0]], ["master"]])
+    for b in range(nb):
+        k = rng.randint(2, 4 if nb > 1 or small else 8)
+        more, tips, cid = _gen_dag(rng, k, linear, first_id=cid)
+        if commits and rng.random() < 0.85:
+            more[0] = (more[0][0], [rng.choice([c for c, _ in commits])])
+        head, cid = _close(rng, more, tips, cid)
+        for c, ps in more:
+            branch_of[c] = b + 1
+        commits += more
+        branches.append([names[b], head])
+    if nb > 1 and rng.random() < 0.1:
+        branches[-1][1] = rng.choice([c for c, _ in commits])
+    ptag = rng.choice([0.6, 0.9, 0.9, 1.0])
+    explicit = mode != "domain" and rng.random() < 0.5 or rng.random() < 0.15
+    exotic = rng.choice([0.0, 0.0, 0.0, 0.15, 0.4])
+    files = rng.choice(["one", "one", "sep"])
+    style = rng.choice(["indep", "indep", "indep", "alternate", "alternate", "lockstep"])
+    ghost = rng.random() < 0.15
+    pin_idx = {cn: {} for cn, _ in comps}
+    start = {cn: rng.choice([0, 0, 0, 1, 2]) for cn, _ in comps}
+    spec = []
+    for c, ps in sorted(commits):
+        nopin_all = mode != "domain" and rng.random() < 0.06
+        mover = rng.choice([cn for cn, _ in comps])
+        step = rng.choice([0, 1, 1, 2, 3])
+        pins = {}
+        for cn, _ in comps:
+            vs = vers_[cn]
+            if mode == "domain" or rng.random() < 0.6:
+                lo = min(max([pin_idx[cn][p] for p in ps], default=start[cn]), len(vs) - 1)
+                inc = rng.choice([0, 0, 0, 1, 1, 2, 3]) if style == "indep" else step if style == "lockstep" or cn == mover else 0
+                idx = min(len(vs) - 1, lo + inc)
+                pin = list(vs[idx])
+            else:
+                idx = rng.randrange(len(vs))
+                q = rng.random()
+                v = vs[idx]
+                pin = list(v) if q < 0.7 else [v[0], v[1], v[2] + 999] if q < 0.8 else [v[0] + 3, v[1], v[2]] if q < 0.85 else None
+            pin_idx[cn][c] = idx
+            pins[cn] = pin
+        if nopin_all or (files == "one" and any(v is None for v in pins.values())):
+            pins = None              # one shared file: a commit has all its pins or none
+        else:
+            pins = {cn: v for cn, v in pins.items() if v is not None}
+        if pins is not None and ghost:
+            pins["ghost"] = [1, 1, 1 + len(spec) // 2]
+        d = {"id": c, "p": ps, "m": int(explicit and rng.random() < 0.25), "tags": [], "pins": pins or {}}
+        if rng.random() < ptag:
+            _tag_commit(rng, exotic, d, PM, pm0 + branch_of[c] - 1, c + poff, rng.random() < 0.08)
+        spec.append(d)
+    rng.shuffle(branches)
+    cnames = [cn for cn, _ in comps]
+    rng.shuffle(cnames)
+    return {"name": name, "comps": cnames, "ghosts": ["ghost"] if ghost else [], "files": files, "frev": int(rng.random() < 0.5),
+            "commits": _unique_tag_names(spec), "branches": branches}
+
+
+# shapes of a collection: (number of repositories, {index: indices of the repositories it pins}); leaves first
+TOPOLOGIES = {
+    "fan2": (3, {2: [0, 1]}),                       # one parent, two components
+    "fan3": (4, {3: [0, 1, 2]}),
+    "two_parents": (3, {1: [0], 2: [0]}),           # the same component pinned by two parents
+    "two_parents_fan": (4, {2: [0, 1], 3: [0, 1]}),
+    "chain": (3, {1: [0], 2: [1]}),                 # three levels: a component that pins a sub-component itself
+    "chain_diamond": (3, {1: [0], 2: [1, 0]}),      # ... and the top pins the sub-component directly, too
+    "chain_fan": (4, {2: [0], 3: [2, 1]}),
+}
+REPO_NAMES = ["app", "base", "core", "lib_a", "lib_b", "zeta", "mid", "top", "r2", "R1"]
+
+
+def gen_multi(rng, topo=None, mode=None):
+    """a collection of 3-4 repositories in which a repository pins several components, a component is pinned by
+    several repositories, or a component pins a sub-component; RBuild / RCommit iids start at 0 in every repository"""
+    topo = topo or rng.choice(["fan2", "fan2", "fan2", "fan2", "fan3", "two_parents", "two_parents_fan", "chain",
+                               "chain_diamond", "chain_fan"])
+    mode = mode or rng.choice(["domain", "domain", "domain", "domain", "wild"])
+    n, deps = TOPOLOGIES[topo]
+    names = rng.sample(REPO_NAMES, n)
+    repos = []
+    for i in range(n):
+        if i not in deps:
+            for _ in range(50):
+                comp = gen_component(rng, rng.random() < 0.5, two_branches=rng.random() < 0.2)
+                if any(not has_qm(v) for c in comp["commits"] for v in versions(c)):
+                    break
+            repos.append(dict(comp, name=names[i], comps=[]))
+        else:
+            for _ in range(50):
+                own = gen_owner(rng, names[i], [(names[j], repos[j]) for j in deps[i]], mode, small=True)
+                if any(not has_qm(v) for c in own["commits"] for v in versions(c)):
+                    break
+            repos.append(own)
+    rng.shuffle(repos)                    # the order in which the repositories are supplied
+    return {"k": "bump", "repos": repos}
+
+
 def gen_cases(rng, tier):
     big = tier == "thorough"
     cases = []
@@ -605,18 +820,24 @@ def gen_cases(rng, tier):
             cases.append({"k": "order", "repos": ids, "deps": deps})
     for _ in range(3000 if big else 400):
         cases.append(gen_order(rng))
-    for _ in range(12000 if big else 1500):
+    for _ in range(9000 if big else 1000):
         cases.append(gen_bump(rng))
+    for _ in range(3000 if big else 450):
+        cases.append(gen_multi(rng))
     return cases
 
 
 def search_cases(rng, tier):
     out = [gen_order(rng) for _ in range(600)]
-    out += [gen_bump(rng, mode="domain") for _ in range(2500)]
+    out += [gen_bump(rng, mode="domain") for _ in range(1800)]
+    out += [gen_multi(rng, mode="domain") for _ in range(700)]
     return out
 
 
 def kind(case):
+    if case["k"] == "bump" and "repos" in case:
+        n = max(len(r.get("comps", [])) for r in case["repos"])
+        return "bump:collection" + (":multi-component" if n > 1 else "")
     return case["k"]
 
 
@@ -699,74 +920,102 @@ def _run_bump(case):
         return cls._parse_default_buildtag(tag_str)
     common = {"read_components_from_file": read, "_SAVED_BUILD_NUM_SOURCES": [SAVED_FILE],
               "_read_saved_build_num_from_file": read_saved, "parse_buildtag": classmethod(parse_buildtag)}
-    Par = type("Par", (ProjectRepo,), {"_COMPONENTS_VERSIONS_LOCATIONS": {"comp": "DEPENDS"}, **common})
-    Cmp = type("Cmp", (ProjectRepo,), {"_COMPONENTS_VERSIONS_LOCATIONS": {}, **common})
+    specs = as_multi(case)["repos"]
+    names = [r["name"] for r in specs]
     try:
-        mpar, mcomp = MockRepo("par", case["par"], "comp"), MockRepo("comp", case["comp"])
-        rpar, rcomp = Par("par", mpar, "origin"), Cmp("comp", mcomp, "origin")
-        rc = ReposCollection({"par": rpar, "comp": rcomp})
+        mocks, objs = {}, {}
+        for r in specs:
+            cls = type("R_" + r["name"], (ProjectRepo,),
+                       {"_COMPONENTS_VERSIONS_LOCATIONS": {c: dep_file(r, c) for c in declared(r)}, **common})
+            mocks[r["name"]] = MockRepo(r["name"], r)
+            objs[r["name"]] = cls(r["name"], mocks[r["name"]], "origin")
+        rc = ReposCollection(objs)
         data = dict(rc.make_reports_data(SEARCH_TEXT))
+
+        def snapshot(d):
+            return [[n, [[rb.iid, str(rb.build_num), [[a[0], str(a[1]), str(a[2])] for a in rb.included_at]]
+                         for _, rb in sorted(d[n].brcommits.items())]] for n in sorted(d)]
+        # a second report of the same collection: it must say the same, and must leave the first one alone
+        snap = snapshot(data)
+        data2 = dict(rc.make_reports_data(SEARCH_TEXT))
+        again = [snapshot(data) == snap, snapshot(data2) == snap]
         # what a fresh builds detector says about every commit (tag -> build number, ascending)
         vers = []
-        for repo, mock, spec in ((rcomp, mcomp, case["comp"]), (rpar, mpar, case["par"])):
-            det = repo.make_builds_detector()
-            vers.append([[list(b.as_tuple()) for b in det.get_builds_numbers(mock.commits[cid_])]
-                         for cid_ in sorted(c["id"] for c in spec["commits"])])
+        for r in specs:
+            det = objs[r["name"]].make_builds_detector()
+            vers.append([[list(b.as_tuple()) for b in det.get_builds_numbers(mocks[r["name"]].commits[cid_])]
+                         for cid_ in sorted(c["id"] for c in r["commits"])])
     except BaseException as e:  # noqa
         if type(e).__name__ == "Hang":
             raise
         return {"r": ["err", SX.exc_name(e)]}
-    cg, pg = data["comp"], data["par"]
-    # ---- the component's RGraph (input of the model, and the observed included_at)
-    cbranches = []
-    for rbranch, _ in cg.bn_map.values():
-        if not any(rbranch is b for b in cbranches):
-            cbranches.append(rbranch)
-    for rbranch in cg.branches:
-        if not any(rbranch is b for b in cbranches):
-            cbranches.append(rbranch)
-    allrb = {}
-    for rb in cg.brcommits.values():
-        allrb[rb.iid] = rb
-    for b in cbranches:
-        for rb in b.rbuilds.values():
-            allrb[rb.iid] = rb
-    rank = {iid: i for i, iid in enumerate(sorted(allrb))}
-    pnames = [b[0] for b in sorted_branches(case["par"])]
+    bnames = {r["name"]: [b[0] for b in sorted_branches(r)] for r in specs}
+    FOREIGN = 1000000      # an RBuild object that does not belong to the component's graph (same iid or not)
     try:
-        crbs = []
-        for iid in sorted(allrb):
-            rb = allrb[iid]
-            crbs.append({"i": rank[iid], "bn": _bn3(rb.build_num), "t": rb.build_type,
-                         "p": sorted(rank[p] for p in rb.parent_rbuilds),
-                         "c": rb.rcommit.commit.cid if rb.rcommit is not None else None,
-                         "br": [k for k, b in enumerate(cbranches) if iid in b.rbuilds],
-                         "at": [[pnames.index(a[1]), _bn3(a[2])] for a in rb.included_at],
-                         "at_repo": sorted({a[0] for a in rb.included_at})})
-        bnmap = [[_bn3(k), [j for j, b in enumerate(cbranches) if b is v[0]][0], rank[v[1].iid]] for k, v in cg.bn_map.items()]
-        branches = [sorted(rank[i] for i in b.rbuilds) for b in cbranches]
-        # ---- the parent's report
-        pbr = []
-        for rbranch in pg.branches:
-            rbs = []
-            for rb in rbranch.get_rbuilds_list():
-                bump = rb.bumps.get("comp")
-                bv = None
-                if bump is not None:
-                    bv = [_bn3(bump.to_buildnum), sorted(_bn3(x) for x in bump.from_build_nums),
-                          SX.opt(None if bump.to_rbuild is None else rank[bump.to_rbuild.iid]),
-                          sorted(rank[i] for i in bump.from_rbuilds)]
-                rbs.append({"bn": _bn3(rb.build_num), "t": rb.build_type,
-                            "c": rb.rcommit.commit.cid if rb.rcommit is not None else None,
-                            "x": [r.commit.cid for r in rb.get_printable_rcommits()],
-                            "bump": bv, "other_bumps": sorted(k for k in rb.bumps if k != "comp")})
-            pbr.append([pnames.index(rbranch.branch_name), rbs])
+        # ---- every repository's RGraph as a component sees it (input of the model), and the observed included_at
+        graphs, ranks = {}, {}
+        for r in specs:
+            cg = data[r["name"]]
+            cbranches = []
+            for rbranch, _ in cg.bn_map.values():
+                if not any(rbranch is b for b in cbranches):
+                    cbranches.append(rbranch)
+            for rbranch in cg.branches:
+                if not any(rbranch is b for b in cbranches):
+                    cbranches.append(rbranch)
+            allrb = {}
+            for rb in cg.brcommits.values():
+                allrb[rb.iid] = rb
+            for b in cbranches:
+                for rb in b.rbuilds.values():
+                    allrb[rb.iid] = rb
+            rank = {iid: i for i, iid in enumerate(sorted(allrb))}
+            byobj = {id(rb): rank[iid] for iid, rb in allrb.items()}
+            ranks[r["name"]] = byobj
+            crbs = []
+            for iid in sorted(allrb):
+                rb = allrb[iid]
+                at = []
+                for a in rb.included_at:
+                    at.append([a[0], bnames[a[0]].index(a[1]), _bn3(a[2])])       # KeyError / ValueError: unknown repository / branch
+                crbs.append({"i": rank[iid], "bn": _bn3(rb.build_num), "t": rb.build_type,
+                             "p": sorted(rank[p] for p in rb.parent_rbuilds),
+                             "c": rb.rcommit.commit.cid if rb.rcommit is not None else None,
+                             "br": [k for k, b in enumerate(cbranches) if iid in b.rbuilds],
+                             "at": at})
+            bnmap = [[_bn3(k), [j for j, b in enumerate(cbranches) if b is v[0]][0], rank[v[1].iid]] for k, v in cg.bn_map.items()]
+            graphs[r["name"]] = {"crbs": crbs, "bnmap": bnmap, "cbranches": [sorted(rank[i] for i in b.rbuilds) for b in cbranches],
+                                 "cnames": [b.branch_name for b in cbranches]}
+        # ---- the reports of the repositories that pin components
+        for r in specs:
+            if not r.get("comps"):
+                continue
+            pg = data[r["name"]]
+            pbr = []
+            for rbranch in pg.branches:
+                rbs = []
+                for rb in rbranch.get_rbuilds_list():
+                    bvs = []
+                    for comp in r["comps"]:
+                        bump = rb.bumps.get(comp)
+                        bv = None
+                        if bump is not None:
+                            rk = lambda x, comp=comp: ranks[comp].get(id(x), FOREIGN + x.iid)
+                            bv = [_bn3(bump.to_buildnum), sorted(_bn3(x) for x in bump.from_build_nums),
+                                  SX.opt(None if bump.to_rbuild is None else rk(bump.to_rbuild)),
+                                  sorted(rk(x) if x.iid == i else FOREIGN + i for i, x in bump.from_rbuilds.items())]
+                        bvs.append(bv)
+                    rbs.append({"bn": _bn3(rb.build_num), "t": rb.build_type,
+                                "c": rb.rcommit.commit.cid if rb.rcommit is not None else None,
+                                "x": [x.commit.cid for x in rb.get_printable_rcommits()],
+                                "bumps": bvs, "other_bumps": sorted(k for k in rb.bumps if k not in r["comps"])})
+                pbr.append([bnames[r["name"]].index(rbranch.branch_name), rbs])
+            graphs[r["name"]]["par"] = pbr
         vers = [[[_bn3(tuple(b)) for b in bs] for bs in one] for one in vers]
     except (ValueError, KeyError) as e:
         return {"r": ["unmodelled", repr(e)]}
-    return {"r": ["ok"], "vers": vers, "crbs": crbs, "bnmap": bnmap, "cbranches": branches, "par": pbr,
-            "cnames": [b.branch_name for b in cbranches],
-            "sorted_repos": list(rc.sorted_repos)}
+    return {"r": ["ok"], "vers": vers, "graphs": [graphs[n] for n in names], "sorted_repos": list(rc.sorted_repos),
+            "again": again}
 
 
 def impl_run(case):
@@ -814,21 +1063,32 @@ def coq_case(case, obs):
     if case["k"] == "order":
         deps = SX.clist(f"({int(k)}%nat, {c_nats(v)})" for k, v in case["deps"].items())
         return f"Order {c_nats(case['repos'])} {deps}"
-    ci_rbs = SX.clist(f"({r['i']}%nat, ({c_bn(r['bn'])}, {c_nats(r['p'])}))" for r in obs["crbs"])
-    ci_bn = SX.clist(f"({c_bn(k)}, ({b}%nat, {i}%nat))" for k, b, i in obs["bnmap"])
-    ci_br = SX.clist(c_nats(b) for b in obs["cbranches"])
-    par = case["par"]
-    ids = sorted(c["id"] for c in par["commits"])
-    pos = {c: i for i, c in enumerate(ids)}
-    byid = {c["id"]: c for c in par["commits"]}
-    commits = []
-    for cid_ in ids:
-        c = byid[cid_]
-        pin = "None" if c["pin"] is None else f"(Some {c_bn(c['pin'])})"
-        commits.append(f"mkRawC {c_nats(pos[p] for p in c['p'])} {SX.cbool(c['m'])} {c_rawtags(c)} {c_saved(c)} {pin}")
-    heads = SX.clist(f"({i}%nat, {pos[h]}%nat)" for i, (_, h) in enumerate(sorted_branches(par)))
-    ctags = SX.clist(f"({c_saved(c)}, {c_rawtags(c)})" for c in sorted(case["comp"]["commits"], key=lambda c: c["id"]))
-    return f"Bump (mkCI {ci_rbs} {ci_bn} {ci_br}) {ctags} {SX.clist(commits)} {heads}"
+    specs = as_multi(case)["repos"]
+    names = [r["name"] for r in specs]
+    gr = dict(zip(names, obs["graphs"]))
+    tags = SX.clist(SX.clist(f"({c_saved(c)}, {c_rawtags(c)})" for c in sorted(r["commits"], key=lambda c: c["id"])) for r in specs)
+    parents = []
+    for par in specs:
+        if not par.get("comps"):
+            continue
+        cis = []
+        for comp in par["comps"]:
+            o = gr[comp]
+            ci_rbs = SX.clist(f"({r['i']}%nat, ({c_bn(r['bn'])}, {c_nats(r['p'])}))" for r in o["crbs"])
+            ci_bn = SX.clist(f"({c_bn(k)}, ({b}%nat, {i}%nat))" for k, b, i in o["bnmap"])
+            ci_br = SX.clist(c_nats(b) for b in o["cbranches"])
+            cis.append(f"(mkCI {ci_rbs} {ci_bn} {ci_br})")
+        ids = sorted(c["id"] for c in par["commits"])
+        pos = {c: i for i, c in enumerate(ids)}
+        byid = {c["id"]: c for c in par["commits"]}
+        commits = []
+        for cid_ in ids:
+            c = byid[cid_]
+            pins = SX.clist("None" if pin_of(c, comp) is None else f"(Some {c_bn(pin_of(c, comp))})" for comp in par["comps"])
+            commits.append(f"mkRawC {c_nats(pos[p] for p in c['p'])} {SX.cbool(c['m'])} {c_rawtags(c)} {c_saved(c)} {pins}")
+        heads = SX.clist(f"({i}%nat, {pos[h]}%nat)" for i, (_, h) in enumerate(sorted_branches(par)))
+        parents.append(f"(mkP {SX.clist(cis)} {SX.clist(commits)} {heads})")
+    return f"Bump {tags} {SX.clist(parents)}"
 
 
 def expected_sx(case, obs):
@@ -840,14 +1100,22 @@ def expected_sx(case, obs):
         if d[0] == "err":
             return SX.dumps(SX.err(d[1]))
         return SX.dumps(SX.ok(d[1]))
-    par = case["par"]
-    ids = sorted(c["id"] for c in par["commits"])
-    pos = {c: i for i, c in enumerate(ids)}
-    brs = []
-    for bi, rbs in obs["par"]:
-        brs.append([bi, [[rb["bn"], rb["t"], [pos[x] for x in rb["x"]], SX.opt(rb["bump"])] for rb in rbs]])
-    inc = [[r["i"], r["at"]] for r in obs["crbs"]]
-    return SX.dumps(SX.ok([brs, inc, obs["vers"][0], obs["vers"][1]]))
+    specs = as_multi(case)["repos"]
+    names = [r["name"] for r in specs]
+    gr = dict(zip(names, obs["graphs"]))
+    reports = []
+    for par in specs:
+        if not par.get("comps"):
+            continue
+        ids = sorted(c["id"] for c in par["commits"])
+        pos = {c: i for i, c in enumerate(ids)}
+        brs = []
+        for bi, rbs in gr[par["name"]]["par"]:
+            brs.append([bi, [[rb["bn"], rb["t"], [pos[x] for x in rb["x"]], [SX.opt(b) for b in rb["bumps"]]] for rb in rbs]])
+        # included_at of the components' builds: the entries this repository made, in their order
+        inc = [[[r["i"], [[a[1], a[2]] for a in r["at"] if a[0] == par["name"]]] for r in gr[comp]["crbs"]] for comp in par["comps"]]
+        reports.append([brs, inc])
+    return SX.dumps(SX.ok([reports, obs["vers"]]))
 
 
 # ------------------------------------------------------------------ oracle (the statement, from the raw histories)
@@ -939,8 +1207,36 @@ def _own(spec, anc):
     return own, brs
 
 
+def pairs(case, obs=None):
+    """every (repository P, component C that P pins) of the collection as a two-repository view in the older
+    form ({"comp": C's history, "par": P's history with "pin" = P's pin of C}), with the matching view of the
+    observation: C's builds with the included_at entries that name P, P's reported builds with their bump of C"""
+    specs = as_multi(case)["repos"]
+    names = [r["name"] for r in specs]
+    byname = dict(zip(names, specs))
+    gr = dict(zip(names, obs["graphs"])) if obs is not None and obs.get("r") == ["ok"] else None
+    out = []
+    for par in specs:
+        for k, cname in enumerate(par.get("comps", [])):
+            comp = byname[cname]
+            pview = {"commits": [dict({kk: v for kk, v in c.items() if kk != "pins"}, pin=pin_of(c, cname)) for c in par["commits"]],
+                     "branches": par["branches"]}
+            pc = {"k": "bump", "comp": {"commits": comp["commits"], "branches": comp["branches"]}, "par": pview,
+                  "names": [par["name"], cname]}
+            po = None
+            if gr is not None:
+                owners = {r["name"] for r in specs if cname in r.get("comps", [])}
+                crbs = [dict(r, at=[[a[1], a[2]] for a in r["at"] if a[0] == par["name"]],
+                             at_repo=sorted({a[0] for a in r["at"]} - owners)) for r in gr[cname]["crbs"]]
+                pbr = [[bi, [dict(rb, bump=rb["bumps"][k]) for rb in rbs]] for bi, rbs in gr[par["name"]]["par"]]
+                po = {"r": ["ok"], "vers": [obs["vers"][names.index(cname)], obs["vers"][names.index(par["name"])]],
+                      "crbs": crbs, "par": pbr}
+            out.append((pc, po))
+    return out
+
+
 def in_domain(case):
-    """the property's quantifier"""
+    """the property's quantifier, for one (parent, component) pair in the two-repository form"""
     comp, par = case["comp"], case["par"]
     cpar = {c["id"]: c["p"] for c in comp["commits"]}
     canc = _ancestors(cpar)
@@ -961,7 +1257,10 @@ def in_domain(case):
     ppar = {c["id"]: c["p"] for c in par["commits"]}
     panc = _ancestors(ppar)
     pin = {c["id"]: c["pin"] for c in par["commits"]}
-    vs = set(allv)
+    cown, _ = _own(comp, canc)
+    # the builds of the component: tagged commits of its release branches (a tag on a commit that no branch head
+    # reaches is not a build of any branch)
+    vs = {v for c, ts in tags.items() if c in cown for v in ts}
     for c in ppar:
         if pin[c] is None or tuple(pin[c]) not in vs:
             return False                          # always names an existing component build
@@ -972,13 +1271,35 @@ def in_domain(case):
 
 
 def _oracle_bump(case, obs):
+    """the statement is about every repository of the collection and every component it pins: each such pair is
+    judged by itself (what another component of the same parent, or another parent of the same component, does
+    must not matter), from the raw histories"""
     r = obs["r"]
-    if not in_domain(case):
+    dom = [(pc, po) for pc, po in pairs(case, obs) if in_domain(pc)]
+    if not dom:
         return []
     if r[0] == "err":
         return [("report-raises", f"make_reports_data raised {r[1]}")]
     if r[0] != "ok":
-        return [("report-unreadable", f"the report carries a build number that is no (major, minor, build) triple: {r[1]}")]
+        return [("report-unreadable", f"the report carries a build number that is no (major, minor, build) triple, or an "
+                                      f"included_at entry that names no branch of a repository of the collection: {r[1]}")]
+    multi = len(as_multi(case)["repos"]) > 2
+    seen, res = set(), []
+    if obs.get("again", [True, True]) != [True, True]:
+        seen.add("report-history-dependent")
+        res.append(("report-history-dependent",
+                    "a second make_reports_data on the same collection " +
+                    ("changed the included_at lists of the first report's builds" if not obs["again"][0] else
+                     "records other included_at lists than the first one")))
+    for pc, po in dom:
+        for sig, msg in _oracle_pair(pc, po):
+            if sig not in seen:
+                seen.add(sig)
+                res.append((sig, f"[repository {pc['names'][0]}, its component {pc['names'][1]}] {msg}" if multi else msg))
+    return res
+
+
+def _oracle_pair(case, obs):
     out = []
     comp, par = case["comp"], case["par"]
     cpar = {c["id"]: c["p"] for c in comp["commits"]}
@@ -1022,7 +1343,7 @@ def _oracle_bump(case, obs):
                 out.append(("included-at-extra", f"pseudo build {rb['bn']} of the component has included_at {rb['at']}"))
             continue
         b = rb["c"]
-        if rb["at_repo"] not in ([], ["par"]):
+        if rb["at_repo"]:
             out.append(("included-at-extra", f"component build {rb['bn']} included_at names repository {rb['at_repo']}"))
         seen = set()
         for bi, bnp in rb["at"]:
@@ -1072,12 +1393,12 @@ def _oracle_bump(case, obs):
                 rep = reported.get((bi, p))
                 fr = rep["bump"][3] if rep is not None and rep["bump"] is not None else []
                 below = set()
-                stack = [x for f in fr for x in crb_parents[f]]
+                stack = [x for f in fr for x in crb_parents.get(f, [])]
                 while stack:
                     x = stack.pop()
                     if x not in below:
                         below.add(x)
-                        stack.extend(crb_parents[x])
+                        stack.extend(crb_parents.get(x, []))
                 between = [q for q in builds[bi] if q != p and q in panc[p] and q not in cont
                            and any(e in panc[q] for e in earlier)]
                 if rb["i"] in below:
@@ -1117,7 +1438,7 @@ def nontrivial(case, obs):
     if case["k"] == "order":
         nodes = set(case["repos"])
         return any(y in nodes for x in nodes for y in case["deps"].get(str(x), []))
-    return obs["r"][0] == "ok" and any(r["at"] for r in obs["crbs"])
+    return obs["r"][0] == "ok" and any(r["at"] for g in obs["graphs"] for r in g["crbs"])
 
 
 def outcome(case, obs):
@@ -1128,8 +1449,9 @@ def outcome(case, obs):
         return "order:" + (r[0] if r[0] == "ok" else r[1])
     if r[0] != "ok":
         return "bump:" + r[0] + (":" + r[1] if r[0] == "err" else "")
-    n = sum(len(x["at"]) for x in obs["crbs"])
-    return "bump:" + ("domain" if in_domain(case) else "wild") + (":registrations" if n else ":none")
+    n = sum(len(x["at"]) for g in obs["graphs"] for x in g["crbs"])
+    dom = [in_domain(pc) for pc, _ in pairs(case)]
+    return "bump:" + ("domain" if all(dom) else "part-domain" if any(dom) else "wild") + (":registrations" if n else ":none")
 
 
 def shrink_candidates(case):
@@ -1142,25 +1464,32 @@ def shrink_candidates(case):
                 d[k] = v[:i] + v[i + 1:]
                 yield {"k": "order", "repos": case["repos"], "deps": d}
         return
-    # drop a parent commit that nothing refers to (a head-less tip), or a tag, or a matching flag
-    for which in ("par", "comp"):
-        spec = case[which]
+    # drop a repository nothing pins, a component from a pin list, a commit that nothing refers to (a head-less
+    # tip), a branch, or a matching flag
+    case = as_multi(case)
+    repos = case["repos"]
+    pinned = {c for r in repos for c in r.get("comps", [])}
+    for i, r in enumerate(repos):
+        if r["name"] not in pinned and len(repos) > 2:
+            yield {"k": "bump", "repos": repos[:i] + repos[i + 1:]}
+    for i, r in enumerate(repos):
+        for cname in r.get("comps", []):
+            if len(r["comps"]) > 1:
+                r2 = dict(r, comps=[c for c in r["comps"] if c != cname])
+                yield {"k": "bump", "repos": repos[:i] + [r2] + repos[i + 1:]}
+    for ri, spec in enumerate(repos):
+        def put(s2):
+            return {"k": "bump", "repos": repos[:ri] + [s2] + repos[ri + 1:]}
         used = {p for c in spec["commits"] for p in c["p"]} | {h for _, h in spec["branches"]}
         for i, c in enumerate(spec["commits"]):
             if c["id"] not in used:
-                s2 = dict(spec)
-                s2["commits"] = spec["commits"][:i] + spec["commits"][i + 1:]
-                yield {**case, which: s2}
+                yield put(dict(spec, commits=spec["commits"][:i] + spec["commits"][i + 1:]))
         if len(spec["branches"]) > 1:
             for i in range(len(spec["branches"])):
-                s2 = dict(spec)
-                s2["branches"] = spec["branches"][:i] + spec["branches"][i + 1:]
-                yield {**case, which: s2}
+                yield put(dict(spec, branches=spec["branches"][:i] + spec["branches"][i + 1:]))
         for i, c in enumerate(spec["commits"]):
             if c.get("m"):
-                s2 = dict(spec)
-                s2["commits"] = spec["commits"][:i] + [{**c, "m": 0}] + spec["commits"][i + 1:]
-                yield {**case, which: s2}
+                yield put(dict(spec, commits=spec["commits"][:i] + [{**c, "m": 0}] + spec["commits"][i + 1:]))
 
 
 TECHNIQUE = ("Coq proofs (invariants of the DFS stack machine, induction over graph paths / build chains) on a hand-written "
@@ -1172,7 +1501,11 @@ LEVEL_TEXT = ("Partial. FULL (unbounded, Coq): repo_order, repo_order_supply, re
               "get_rbuilds_in_bump returns, for every component build graph, every to-build and EVERY set of from-builds, within "
               "the model's fuel, a duplicate-free list of exactly anc*(to) minus anc*(from); the work-list loop that collects the "
               "excluded builds is modelled with its visited set and proved by invariant + potential: excluded_set), bump_set_none, "
-              "included_never_missing (every history), bump_from, bump_reported, consts_ok + tag_routes_ok (clauses re-read from "
+              "included_never_missing (every history), bump_from, bump_reported, bumps_independent_per_component (several "
+              "components of one parent: the bump of a component is computed from that component's version map, the commit's "
+              "pin of it and the parent builds' bumps of it alone - whatever the other components are, pin or carry; the state "
+              "of the per-component loop is created inside the loop body: consts_ok), included_per_component (a component's "
+              "included_at lists are the registrations of its own loop), consts_ok + tag_routes_ok (clauses re-read from "
               "the source), tag_build_number / release_tag_pin (a release tag is build M.m.n for every M, m, n - 0 included - "
               "and is found by exactly the pin M.m.n), builds_numbers_complete, build_number_order (BuildNumData.cmp is "
               "lexicographic on numbers, numbers below '?', total). "
@@ -1188,8 +1521,10 @@ LEVEL_TEXT = ("Partial. FULL (unbounded, Coq): repo_order, repo_order_supply, re
               "ancestor-ordered in the component graph, a component build is recorded at a build iff that build's pin contains "
               "it and no ancestor build's pin in the branch does. That the RGraph construction yields linked branches when every "
               "commit pins the component is the local theorem bump_from + the correspondence (0 disagreements on ~2000 quick / "
-              "~15500 thorough generated two-repository histories incl. merges, several branches, unbuilt heads, matching parent "
-              "commits), not a global theorem; distinct keys / build numbers within a branch are guards. For pins that are not "
+              "~15500 thorough generated histories: two-repository ones incl. merges, several branches, unbuilt heads, matching "
+              "parent commits, and collections of 3-4 repositories with several components per parent, several parents per "
+              "component and three levels), not a global theorem; all theorems about bumps and included_at are stated per "
+              "component (index cx) of a parent with any number of components; distinct keys / build numbers within a branch are guards. For pins that are not "
               "ancestor-ordered the clause 'first build of each parent branch' is false (open finding) resp. tested only "
               "(independent reachability oracle on the raw histories).")
 LEVEL_NOTE = ("Trusted: Coq kernel + vm_compute; fidelity of the hand model (checked by correspondence, not proved); the mock git "
